@@ -258,6 +258,21 @@ def run_match_tables(prog, rep):
                 if fn_used and fn_used != {want_fn}:
                     problems.append('%s uses %s, expected %s' % (mm, sorted(fn_used), want_fn))
                     continue
+                if extra and eq:
+                    # the exact-hit test compares the position with the coordinate of the rounded sample: |r * interval + offset - position| <= eps
+                    # (judged as polynomials over the atoms, so any algebraically equal spelling is accepted)
+                    k = [k for k in assign if k[0] == 'cmp' and 'fabs' in repr(k)][0]
+                    fa = [c for c in find_calls(k, ('fabs', 'std::fabs', 'std::abs', 'abs'))]
+                    if fa:
+                        inner = fa[0][2]
+                        rounded = [c for c in find_calls(inner, ('ceil', 'floor', 'round', 'std::ceil', 'std::floor', 'std::round'))]
+                        R = rounded[0] if rounded else None
+                        got = _poly(inner)
+                        # (a negative rounded value is clipped to sample 0 before the test: r = 0)
+                        want = _poly(('bin', '-', ('bin', '+', ('bin', '*', R if R is not None else 0.0, ('sampling_interval',)), ('offset',)), ('position',)))
+                        neg = {m_: -c for m_, c in (want or {}).items()}
+                        if want is None or (got != want and got != neg):
+                            problems.append('the exact-hit test is |%s|, which is not |r * interval + offset - position| (the coordinate of sample r): positions on a sample are misjudged when offset != 0 and interval != 1' % _show_poly(got))
                 plus = contains(val, '+') and _adjust(val, '+')
                 minus = _adjust(val, '-')
                 if mm == 'Greater' and fn_used and exact is True and not plus:
@@ -280,6 +295,42 @@ def run_match_tables(prog, rep):
                        '%s: %s with the documented exact-hit adjustment (%d abstract paths)' % (mm, {'GreaterOrEqual': 'ceil', 'Greater': 'ceil', 'Less': 'floor', 'LessOrEqual': 'floor', 'Equal': 'round'}[mm], len(res)),
                        '; '.join(sorted(set(problems))[:4]))
     return rule
+
+
+def _poly(t):
+    """expand a symbolic arithmetic value into {monomial (sorted tuple of atoms): coefficient}; non-arithmetic subterms are atoms"""
+    if isinstance(t, bool):
+        return {('?',): 1.0}
+    if isinstance(t, (int, float)):
+        return {(): float(t)} if t != 0 else {}
+    if isinstance(t, tuple) and len(t) == 4 and t[0] == 'bin' and t[1] in ('+', '-', '*'):
+        a, b = _poly(t[2]), _poly(t[3])
+        out = {}
+        if t[1] in ('+', '-'):
+            sgn = 1.0 if t[1] == '+' else -1.0
+            for m, c in a.items():
+                out[m] = out.get(m, 0.0) + c
+            for m, c in b.items():
+                out[m] = out.get(m, 0.0) + sgn * c
+        else:
+            for m1, c1 in a.items():
+                for m2, c2 in b.items():
+                    m = tuple(sorted(m1 + m2, key=repr))
+                    out[m] = out.get(m, 0.0) + c1 * c2
+        return {m: c for m, c in out.items() if abs(c) > 1e-12}
+    if isinstance(t, tuple) and len(t) == 3 and t[0] in ('cast', 'paren'):
+        return _poly(t[2])
+    return {(t,): 1.0}
+
+
+def _show_poly(p):
+    def atom(a):
+        if isinstance(a, tuple) and len(a) == 1:
+            return str(a[0])
+        if isinstance(a, tuple) and a and a[0] == 'call':
+            return 'r'
+        return '?'
+    return ' + '.join('%s%s' % ('' if c == 1 else ('-' if c == -1 else '%g*' % c), '*'.join(atom(a) for a in m) or '1') for m, c in sorted(p.items(), key=repr)) or '0'
 
 
 def _has_count(val):
